@@ -226,11 +226,90 @@ func c11Gen(o *vk.Out) c11In {
 	return in
 }
 
+// c11MarkRun: the real App.SetRecovery("h2") over one shape of the recovery subtree and the active list, with one failing
+// coordination call
+func c11MarkRun(t *testing.T, parent, child, other bool, active []string, fault string) (tr []vk.Entry, errStr string, has, inActive bool) {
+	synctest.Test(t, func(t *testing.T) {
+		dir, _ := os.MkdirTemp("", "c11m")
+		defer os.RemoveAll(dir)
+		w := vk.NewWorld()
+		vInstall(w)
+		d := newMemDCS(w, "h1")
+		d.silent = true
+		for _, h := range []string{"h1", "h2", "h3"} {
+			w.AddNode(&vk.Node{Host: h, UUID: hostUUID(h), Up: true, Executed: hostUUID("h1") + ":1-10"})
+			d.rawSet(dcs.JoinPath(pathHANodes, h), mysql.NodeConfiguration{})
+		}
+		va := newVApp(w, d, vAppOpts{Hostname: "h1", Dir: dir})
+		defer va.close()
+		if parent || child || other {
+			d.rawSet(pathRecovery, nil)
+		}
+		if child {
+			d.rawSet(dcs.JoinPath(pathRecovery, "h2"), nil)
+		}
+		if other {
+			d.rawSet(dcs.JoinPath(pathRecovery, "h3"), nil)
+		}
+		if active != nil {
+			d.rawSet(pathActiveNodes, active)
+		}
+		if fault != "" {
+			var op, path string
+			fmt.Sscanf(fault, "%s", &op)
+			op, path = fault[:len(fault)-len(fault[len(op):])], ""
+			for i := range fault {
+				if fault[i] == ':' {
+					op, path = fault[:i], fault[i+1:]
+				}
+			}
+			d.faults = append(d.faults, &memFault{Op: op, Path: path, Nth: 0})
+		}
+		w.ResetTranscript()
+		d.silent = false
+		if err := va.app.SetRecovery("h2"); err != nil {
+			errStr = err.Error()
+		}
+		d.silent = true
+		tr = w.Transcript()
+		has = d.rawHas(dcs.JoinPath(pathRecovery, "h2"))
+		var a []string
+		d.rawGet(pathActiveNodes, &a)
+		for _, x := range a {
+			if x == "h2" {
+				inActive = true
+			}
+		}
+	})
+	return
+}
+
 func TestVerifC11(t *testing.T) {
 	o := vk.Open()
 	m := vk.NewMeta()
 	run := func(in c11In) (out c11Out) {
 		synctest.Test(t, func(t *testing.T) { out = c11Run(in) })
+		return
+	}
+	var rpm struct {
+		Mark *struct {
+			Parent, Child, Other bool
+			Active               []string
+			Fault                string
+		} `json:"mark"`
+	}
+	if vk.ReplayInput(&rpm) && rpm.Mark != nil {
+		k := rpm.Mark
+		_, errStr, has, inActive := c11MarkRun(t, k.Parent, k.Child, k.Other, k.Active, k.Fault)
+		in := map[string]any{"mark": k}
+		if !k.Child && has && inActive {
+			m.Violation("while marked a host is never in the published active list", in, fmt.Sprintf("after SetRecovery (error: %q): mark present and still in active_nodes", errStr))
+		}
+		if errStr == "" && (!has || inActive) {
+			m.Violation("a host that must be marked for recovery is marked (and taken out of the published list)", in, fmt.Sprintf("SetRecovery returned nil, mark present=%v, still in active list=%v", has, inActive))
+		}
+		m.Evaluations = 1
+		o.WriteMeta("c11", m)
 		return
 	}
 	var rp c11In
@@ -343,62 +422,12 @@ func TestVerifC11(t *testing.T) {
 				for _, other := range []bool{false, true} {
 					for _, active := range [][]string{nil, {"h1", "h2", "h3"}, {"h1", "h3"}, {"h2"}} {
 						for _, fault := range []string{"", "get:active_nodes", "set:active_nodes", "create:recovery", "create:recovery/h2"} {
-							var tr []vk.Entry
-							var errStr string
-							var has, inActive bool
-							synctest.Test(t, func(t *testing.T) {
-								dir, _ := os.MkdirTemp("", "c11m")
-								defer os.RemoveAll(dir)
-								w := vk.NewWorld()
-								vInstall(w)
-								d := newMemDCS(w, "h1")
-								d.silent = true
-								for _, h := range []string{"h1", "h2", "h3"} {
-									w.AddNode(&vk.Node{Host: h, UUID: hostUUID(h), Up: true, Executed: hostUUID("h1") + ":1-10"})
-									d.rawSet(dcs.JoinPath(pathHANodes, h), mysql.NodeConfiguration{})
-								}
-								va := newVApp(w, d, vAppOpts{Hostname: "h1", Dir: dir})
-								defer va.close()
-								if parent || child || other {
-									d.rawSet(pathRecovery, nil)
-								}
-								if child {
-									d.rawSet(dcs.JoinPath(pathRecovery, "h2"), nil)
-								}
-								if other {
-									d.rawSet(dcs.JoinPath(pathRecovery, "h3"), nil)
-								}
-								if active != nil {
-									d.rawSet(pathActiveNodes, active)
-								}
-								if fault != "" {
-									var op, path string
-									fmt.Sscanf(fault, "%s", &op)
-									op, path = fault[:len(fault)-len(fault[len(op):])], ""
-									for i := range fault {
-										if fault[i] == ':' {
-											op, path = fault[:i], fault[i+1:]
-										}
-									}
-									d.faults = append(d.faults, &memFault{Op: op, Path: path, Nth: 0})
-								}
-								w.ResetTranscript()
-								d.silent = false
-								if err := va.app.SetRecovery("h2"); err != nil {
-									errStr = err.Error()
-								}
-								d.silent = true
-								tr = w.Transcript()
-								has = d.rawHas(dcs.JoinPath(pathRecovery, "h2"))
-								var a []string
-								d.rawGet(pathActiveNodes, &a)
-								for _, x := range a {
-									if x == "h2" {
-										inActive = true
-									}
-								}
-							})
+							tr, errStr, has, inActive := c11MarkRun(t, parent, child, other, active, fault)
 							in := map[string]any{"mark": map[string]any{"parent": parent, "child": child, "other": other, "active": active, "fault": fault}}
+							if !child && has && inActive {
+								// whatever call failed: a marked host is never in the published list (the host leaves the list BEFORE the mark is created)
+								m.Violation("while marked a host is never in the published active list", in, fmt.Sprintf("after SetRecovery (error: %q): mark present and still in active_nodes", errStr))
+							}
 							if errStr == "" && (!has || inActive) {
 								m.Violation("a host that must be marked for recovery is marked (and taken out of the published list)", in, fmt.Sprintf("SetRecovery returned nil, mark present=%v, still in active list=%v", has, inActive))
 							}
@@ -507,6 +536,11 @@ func TestVerifC11Stale(t *testing.T) {
 			}
 		}
 		for _, h := range stale {
+			// taken offline as well, whichever OTHER statement of the repair failed (going offline is the first step)
+			if last := out.Passes[len(out.Passes)-1].After[h]; !last.Offline && (in.Fault == nil || in.Fault.Kind != "SSetOffline") && in.DcsFault == nil {
+				m.Violation("stale masters are additionally taken offline and marked for recovery", map[string]any{"stale": in},
+					fmt.Sprintf("%s is not in offline mode after %d passes (failing call: %+v)", h, len(out.Passes), in.Fault))
+			}
 			if !out.Recovery[h] {
 				m.Violation("a host found claiming to be master beside the recorded one is marked for recovery", map[string]any{"stale": in},
 					fmt.Sprintf("%s is not marked after %d passes (failing call: %+v)", h, len(out.Passes), in.Fault))
